@@ -17,14 +17,15 @@ TRUSTED = [
 ]
 ASSUMPTIONS = [
     'Stage 1 schemas (wf_schema): single integer primary key, int/str attributes, unique scalars, many-to-one / one-to-many with Pony\'s default cascade_delete; '
-    'one-to-one, many-to-many, composite keys, inheritance are covered by the implementation-side oracle of the fuzzer only when added to the generator (not yet)',
+    'one-to-one and many-to-many relationships and composite keys (Stage 2) are covered by the implementation-side oracles only (half of the search histories use them; the Coq model and the '
+    'correspondence do not); composite primary keys and inheritance are not generated',
     'theorems hold for histories that reach no dirty site of the model (s_dirty = 0): sites 1-8 are known findings / legitimate partial failures of the code, '
     'sites 20-28 are assertion sites believed unreachable (a hit in the correspondence run is reported as a broken tie)',
     'C10 proper is explored, not proved; the theorem listed covers plain integer attributes only',
     'steps the model declines (a deleted object used as a reference value, Entity.set mixing reference and collection arguments, insertion order that depends on '
     'Python set iteration) end the comparison of that history',
 ]
-RULE = ('seeded generator of (schema, op list): 1-3 entities, 1-3 scalar attributes each, 1-3 relationships, 10-40 ops, ~85 % valid ops; '
+RULE = ('seeded generator of (schema, op list): 1-3 entities, 1-3 scalar attributes each, 1-3 relationships (search: also many-to-many, one-to-one, composite_key), 10-40 ops, ~85 % valid ops; '
         'non-trivial = at least three successful mutating ops; distinct = distinct canonical (schema, ops)')
 
 
